@@ -1,2 +1,4 @@
 import HpoProps.C12
 import HpoProps.C20
+import HpoProps.C06
+import HpoProps.C17
